@@ -13,6 +13,8 @@ import (
 	"sync"
 	"testing"
 	"time"
+
+	"github.com/fogfish/golem/pipe/v2"
 )
 
 // Free-running stress: real producer / consumer goroutines, no synctest, real parallelism.  The end-to-end
@@ -50,6 +52,9 @@ func TestFree(t *testing.T) {
 		case "C12":
 			n := 2 + rng.Intn(3)
 			st = &Stage{Kind: "join", N: n}
+			if r%4 == 1 {
+				st.M = 1 // interface-typed elements, nil among them
+			}
 			for i := 0; i < n; i++ {
 				in := make([]int, size)
 				for j := range in {
@@ -147,7 +152,44 @@ func freeRun(st *Stage, inputs [][]int, cp int) (*Case, bool, string) {
 		icaps[i] = cp
 	}
 	rec := &calls{decoy: true, gates: map[int]chan struct{}{}, start: time.Now()}
-	outs := build(ctx, st, ins, rec)
+	var outs []output
+	send := func(i, x int) { ins[i] <- x }
+	closeIn := func(i int) { close(ins[i]) }
+	if st.Kind == "join" && st.M == 1 {
+		// the elements travel as interface values, and the value 7 of input 0 as the NIL interface: Join forwards
+		// whatever its inputs carry, whatever the element type is
+		insA := make([]chan any, len(inputs))
+		ro := make([]<-chan any, len(inputs))
+		for i := range insA {
+			insA[i] = make(chan any, cp)
+			ro[i] = insA[i]
+		}
+		o := pipe.Join(ctx, ro...)
+		outs = []output{{cap: cap(o), try: func() (int, bool, bool) {
+			select {
+			case v, ok := <-o:
+				if !ok {
+					return 0, true, true
+				}
+				if v == nil {
+					return 7, false, true
+				}
+				return v.(int), false, true
+			default:
+				return 0, false, false
+			}
+		}}}
+		send = func(i, x int) {
+			if i == 0 && x == 7 {
+				insA[i] <- nil
+			} else {
+				insA[i] <- x
+			}
+		}
+		closeIn = func(i int) { close(insA[i]) }
+	} else {
+		outs = build(ctx, st, ins, rec)
+	}
 	c := &Case{Stage: st, ICaps: icaps, Inputs: inputs}
 	for _, o := range outs {
 		c.OCaps = append(c.OCaps, o.cap)
@@ -158,12 +200,12 @@ func freeRun(st *Stage, inputs [][]int, cp int) (*Case, bool, string) {
 		go func(i int) {
 			defer wg.Done()
 			for j, x := range inputs[i] {
-				ins[i] <- x
+				send(i, x)
 				if j%17 == 0 {
 					runtime.Gosched()
 				}
 			}
-			close(ins[i])
+			closeIn(i)
 		}(i)
 	}
 	got := make([][]int, len(outs))
